@@ -115,6 +115,9 @@ pub struct Agg {
     pub distinct_logs: HashSet<u64>,
     pub distinct_ileave: HashSet<u64>,
     pub distinct_ileave_intra: HashSet<u64>,
+    pub path_impure: u64,
+    pub path_impure_examples: Vec<String>,
+    pub pooled_runs: u64,
     pub inconclusive: Vec<String>,
     pub harness_errors: Vec<String>,
     pub violating: Vec<(usize, usize, RunRecord)>, // (batch, index in batch, record)
@@ -172,6 +175,15 @@ impl Agg {
         }
         for (s, c) in &r.probes {
             *self.probes.entry(*s).or_insert(0) += *c;
+        }
+        self.path_impure += r.path_impure;
+        for e in &r.path_impure_examples {
+            if self.path_impure_examples.len() < 8 {
+                self.path_impure_examples.push(format!("seed={} {}: {}", r.seed, r.flavor, e));
+            }
+        }
+        if r.pooled_threads {
+            self.pooled_runs += 1;
         }
         for i in &r.inconclusive {
             if self.inconclusive.len() < 50 {
@@ -248,6 +260,46 @@ const REQUIRED_PROBES: &[u32] = &[
     29, 30, 31, 40, 41, 42, 43, 44, 45, 46, 47, 48, 49, 50, 60, 61, 70, 71, 72,
 ];
 
+#[derive(Clone, Debug)]
+pub struct RunSig {
+    pub log: u64,
+    pub sched: u64,
+    pub nondet: bool,
+    pub trace: Option<Vec<(u8, u64)>>,
+    pub callsigs: Option<Vec<(u64, u64)>>,
+}
+
+/// Did the library take a different path for the same request in the two executions
+/// (or within one of them)?
+fn path_differs(a: &RunSig, b: &RunSig) -> Option<bool> {
+    let (ca, cb) = (a.callsigs.as_ref()?, b.callsigs.as_ref()?);
+    let mut m: std::collections::HashMap<u64, u64> = std::collections::HashMap::new();
+    for (r, s) in ca.iter().chain(cb.iter()) {
+        match m.get(r) {
+            Some(old) if old != s => return Some(true),
+            Some(_) => {}
+            None => {
+                m.insert(*r, *s);
+            }
+        }
+    }
+    Some(false)
+}
+
+/// Kind of the first event at which two executions of one run diverge.
+fn first_divergence(a: &RunSig, b: &RunSig) -> Option<(usize, u8)> {
+    let (ta, tb) = (a.trace.as_ref()?, b.trace.as_ref()?);
+    for (i, (x, y)) in ta.iter().zip(tb.iter()).enumerate() {
+        if x != y {
+            return Some((i, x.0));
+        }
+    }
+    if ta.len() != tb.len() {
+        return Some((ta.len().min(tb.len()), b'o'));
+    }
+    None
+}
+
 struct Work {
     next: usize,
     nbatches: usize,
@@ -255,7 +307,7 @@ struct Work {
 
 pub struct Explore {
     pub agg: Agg,
-    pub batch_hashes: BTreeMap<usize, Vec<Option<(u64, u64, bool)>>>,
+    pub batch_hashes: BTreeMap<usize, Vec<Option<RunSig>>>,
     pub batches_done: usize,
     pub hit_wall_cap: bool,
 }
@@ -267,6 +319,7 @@ pub fn explore(
     t: &Tier,
     nbatches: usize,
     only: Option<&[usize]>,
+    trace_batches: &[usize],
     workers: usize,
     deadline: Instant,
 ) -> Explore {
@@ -292,6 +345,7 @@ pub fn explore(
         let _ = w;
         let sock = lanes.all();
         let (batch, runs) = (t.batch, t.runs);
+        let trace_batches: Vec<usize> = trace_batches.to_vec();
         handles.push(std::thread::spawn(move || loop {
             let k = {
                 let mut g = work.lock().unwrap();
@@ -305,9 +359,14 @@ pub fn explore(
                 g.next += 1;
                 list[g.next - 1]
             };
-            let jobs = batch_jobs(base, k, batch, runs);
+            let mut jobs = batch_jobs(base, k, batch, runs);
+            if trace_batches.contains(&k) {
+                for j in jobs.iter_mut() {
+                    j.want_trace = true;
+                }
+            }
             let mut pending: Vec<(usize, Job)> = jobs.into_iter().enumerate().collect();
-            let mut hashes: Vec<Option<(u64, u64, bool)>> = vec![None; pending.len()];
+            let mut hashes: Vec<Option<RunSig>> = vec![None; pending.len()];
             let mut first_attempt = true;
             let mut attempts = 0;
             while !pending.is_empty() && attempts < 6 {
@@ -323,7 +382,13 @@ pub fn explore(
                         Some(r) => {
                             o.agg.add(k, *idx, r);
                             if first_attempt {
-                                hashes[*idx] = Some((r.log_hash, r.sched_hash, r.nondet_window));
+                                hashes[*idx] = Some(RunSig {
+                                    log: r.log_hash,
+                                    sched: r.sched_hash,
+                                    nondet: r.nondet_window,
+                                    trace: r.trace.clone(),
+                                    callsigs: r.callsigs.clone(),
+                                });
                             }
                             last_poisoned = r.deadlock
                                 || r.harness_error.is_some()
@@ -382,9 +447,20 @@ pub fn check(tier_name: &str, base_seed: u64) -> Outcome {
         "static facet: Regex: Send={} Sync={}",
         probe.0, probe.1
     );
-    let lanes = Lanes::start(t.workers, false);
+    let lanes = Lanes::start(env_usize("VERIF_LANES", t.workers), false);
     let nbatches = t.runs.div_ceil(t.batch);
-    let ex = explore(&lanes, base_seed, &t, nbatches, None, t.workers, deadline);
+    // batches that will be re-executed for the determinism self-check (chosen up front so
+    // that their first execution already records divergence checkpoints)
+    let mut redo: Vec<usize> = Vec::new();
+    {
+        let stride = (nbatches / t.redo_batches.max(1)).max(1);
+        let mut i = 0;
+        while i < nbatches && redo.len() < t.redo_batches {
+            redo.push(i);
+            i += stride;
+        }
+    }
+    let ex = explore(&lanes, base_seed, &t, nbatches, None, &redo, t.workers, deadline);
     let explore_s = t0.elapsed().as_secs_f64();
     println!(
         "explored {} runs in {:.1}s ({} batches{})",
@@ -401,19 +477,12 @@ pub fn check(tier_name: &str, base_seed: u64) -> Outcome {
     // ---- determinism self-check: re-execute whole batches in other worker processes,
     // on other reference lanes, and (second pass) with another worker count
     let mut harness_errors: Vec<String> = ex.agg.harness_errors.clone();
-    let done: Vec<usize> = ex.batch_hashes.keys().copied().collect();
-    let mut redo: Vec<usize> = Vec::new();
-    if !done.is_empty() {
-        let stride = (done.len() / t.redo_batches.max(1)).max(1);
-        let mut i = 0;
-        while i < done.len() && redo.len() < t.redo_batches {
-            redo.push(done[i]);
-            i += stride;
-        }
-    }
+    redo.retain(|k| ex.batch_hashes.contains_key(k));
     let mut redo_runs = 0u64;
     let mut redo_mismatch_outcome = 0u64;
     let mut redo_nondet_skipped = 0u64;
+    let mut path_nondeterminism = 0u64;
+    let mut path_nondet_examples: Vec<String> = Vec::new();
     let mut extra_violating: Vec<(usize, usize, RunRecord)> = Vec::new();
     let d0 = Instant::now();
     for (pass, workers) in [(0usize, t.workers), (1usize, t.redo_workers_alt)] {
@@ -431,6 +500,7 @@ pub fn check(tier_name: &str, base_seed: u64) -> Outcome {
             &t,
             nbatches,
             Some(&subset),
+            &subset,
             workers,
             deadline + Duration::from_secs(120),
         );
@@ -442,30 +512,39 @@ pub fn check(tier_name: &str, base_seed: u64) -> Outcome {
             };
             for (i, (a, b)) in h1.iter().zip(h2.iter()).enumerate() {
                 if let (Some(a), Some(b)) = (a, b) {
-                    if a.2 || b.2 {
+                    if a.nondet || b.nondet {
                         // an externally blocked thread opened a window of real concurrency
                         // (DESIGN §3.4): such runs are not expected to replay bit for bit
                         redo_nondet_skipped += 1;
                         continue;
                     }
                     redo_runs += 1;
-                    if a != b {
+                    if a.log != b.log || a.sched != b.sched {
                         let viol1 = ex.agg.violating.iter().any(|(bk, bi, _)| bk == k && *bi == i);
                         let viol2 = ex2.agg.violating.iter().any(|(bk, bi, _)| bk == k && *bi == i);
                         if viol1 || viol2 {
                             // the library misbehaved in at least one execution: reported as
                             // a violation through the normal path
                             redo_mismatch_outcome += 1;
-                        } else if a.1 != b.1 {
-                            harness_errors.push(format!(
-                                "determinism: batch {} job {} decision trace differs between two executions (pass {})",
-                                k, i, pass
-                            ));
-                        } else {
-                            harness_errors.push(format!(
-                                "determinism: batch {} job {} event log differs between two executions with equal decision traces (pass {})",
-                                k, i, pass
-                            ));
+                            continue;
+                        }
+                        let div = first_divergence(a, b);
+                        match path_differs(a, b) {
+                            Some(true) => {
+                                // same job list, same seeds, and some call took another path
+                                // through the library than the same call in the other
+                                // execution (all outcomes still equal the reference): the
+                                // *library* is history- or address-dependent here. Not a C18
+                                // violation by itself (results agree); reported as a warning.
+                                path_nondeterminism += 1;
+                                if path_nondet_examples.len() < 5 {
+                                    path_nondet_examples.push(format!("batch {} job {} (pass {})", k, i, pass));
+                                }
+                            }
+                            _ => harness_errors.push(format!(
+                                "determinism: batch {} job {}: two executions differ although every call took the same path through the library; first divergence {:?} (pass {})",
+                                k, i, div.map(|(at, kind)| (at, kind as char)), pass
+                            )),
                         }
                     }
                 }
@@ -477,9 +556,21 @@ pub fn check(tier_name: &str, base_seed: u64) -> Outcome {
     }
     let determinism_s = d0.elapsed().as_secs_f64();
     println!(
-        "determinism re-execution: {} runs re-executed in other processes/lanes/worker counts, {:.1}s",
+        "determinism re-execution: {} runs re-executed in other processes/worker counts, {:.1}s",
         redo_runs, determinism_s
     );
+    if ex.agg.path_impure > 0 {
+        println!(
+            "WARNING: {} calls took a different path through the library than the same request earlier in the same process (results equal the reference): e.g. {:?}",
+            ex.agg.path_impure, ex.agg.path_impure_examples.iter().take(3).collect::<Vec<_>>()
+        );
+    }
+    if path_nondeterminism > 0 {
+        println!(
+            "WARNING: {} re-executed runs took a different path inside the library (step counts differ) with identical outcomes: {:?}",
+            path_nondeterminism, path_nondet_examples
+        );
+    }
 
     // ---- violations: minimise, verify replay, report
     let mut violations_reported = 0usize;
@@ -654,9 +745,17 @@ pub fn check(tier_name: &str, base_seed: u64) -> Outcome {
                 "worker_counts": [t.workers, t.redo_workers_alt],
                 "log_hash_mismatches_explained_by_violation": redo_mismatch_outcome,
                 "skipped_runs_with_externally_blocked_thread": redo_nondet_skipped,
+                "library_path_nondeterminism_same_outcomes": path_nondeterminism,
+                "library_path_nondeterminism_examples": path_nondet_examples,
                 "wall_s": determinism_s,
             },
             "static_facet": { "send": probe.0, "sync": probe.1 },
+            "path_purity": {
+                "explanation": "per call, the sequence of hook sites hit (the path through the library) is hashed; within one worker process the same request must always take the same path. A difference is not a C18 violation (results are compared separately) but shows history- or address-dependent behaviour; it is reported as a warning.",
+                "calls_that_took_another_path_than_the_same_request_earlier": a.path_impure,
+                "examples": a.path_impure_examples,
+            },
+            "runs_on_long_lived_caller_threads": a.pooled_runs,
             "inconclusive": a.inconclusive,
             "unconfirmed_candidates": unconfirmed,
             "known_findings_printed": known_printed,
